@@ -417,7 +417,7 @@ func realCheck(text string) string {
 }
 
 func Run(args []string) {
-	rep := vh.NewReport("c13-tree", "annotated trees (depth <= 3, width <= 3, every node annotated with probability 0/50/80/100 %: rule object with 0-3 literal rules, note in a third) printed in two random surface forms each (inline / multi-line per annotation, before / behind the comma, notes, quoted / bare rule names, trailing comma, LF / CRLF / CR / mixed line ends, indentation, # and ### comments): real GetAST (rule names and VALUES, notes, keys, values) and real Check verdict equal across the forms, loader model (driver loadv) = real GetAST for both forms; malformed stream: 1-3 byte mutations of the forms, model = real tree or error; nontrivial = at least one annotated node")
+	rep := vh.NewReport("c13-tree", "annotated trees (depth <= 3, width <= 3, every node annotated with probability 0/50/80/100 %: rule object with 0-3 literal rules, note in a third) printed in two random surface forms each (inline / multi-line per annotation, before / behind the comma, notes, quoted / bare rule names, trailing comma, LF / CRLF / CR / mixed line ends, indentation, # and ### comments): real GetAST (rule names and VALUES, notes, keys, values) and real Check verdict equal across the forms, loader model (driver loadv) = real GetAST for both forms; malformed stream: 1-3 byte mutations of the forms, model = real tree or error; nontrivial = at least one annotated node; stream atree (x/c13tree/atree.go): trees printed WITH layout in the grammar of the Lean type AT.ATree, driver `atree`: the table the tree DENOTES (ATree.table, the spec of C13_annotated_tree_loads) = loader model = real GetAST whenever the decidable line discipline AT.lineOK holds, loader model = real GetAST always")
 	r := vh.NewRand(1313)
 	n := vh.Pick(40000, 1200000)
 	alphabet := []byte("{}[]:,\"\\/#@*|-_01. \n\rtn")
@@ -478,6 +478,7 @@ func Run(args []string) {
 			}
 		}
 	}
+	runATree(rep)
 	model := vh.AskModelSharded(reqs, 16)
 	for i := range reqs {
 		if model[i] != impl[i] {
